@@ -19,15 +19,16 @@ import (
 
 // propCfg is the static configuration of a property's check.
 type propCfg struct {
-	Variant     string
-	Quick       time.Duration // search budget per worker
-	Thorough    time.Duration
-	Level       string
-	Rule        string
-	Components  map[string]string // which components ran real code and which a stub
-	Assumptions []string
-	MemLimitMB  int // address-space limit per worker (0 = none)
-	DetSample   int
+	Variant       string
+	Quick         time.Duration // search budget per worker
+	Thorough      time.Duration
+	Level         string
+	Rule          string
+	Components    map[string]string // which components ran real code and which a stub
+	Assumptions   []string
+	MemLimitMB    int  // address-space limit per worker (0 = none)
+	RaceCompanion bool // C17: also run the operation lists on real goroutines under -race
+	DetSample     int
 }
 
 var verifDir = func() string {
@@ -421,6 +422,75 @@ func cmdCheck(args []string) {
 		fmt.Printf("verifsim: clause %q: %s\n", min.Clause, min.Detail)
 	}
 
+	// C17 companion: the same operation lists on real goroutines under the race detector
+	raceInfo := map[string]any{}
+	if cfg.RaceCompanion && violations == 0 {
+		rbin := filepath.Join(scratch, "racecomp")
+		cmd := exec.Command(goBin(), "build", "-race", "-o", rbin, "./cmd/racecomp")
+		cmd.Dir = verifDir
+		cmd.Env = append(os.Environ(), goEnv()...)
+		if out, err := cmd.CombinedOutput(); err != nil {
+			fatal2("building the race companion failed (exit 2, not a verdict): %v\n%s", err, out)
+		}
+		plans := 400
+		if *tier == "thorough" {
+			plans = 6000
+		}
+		procs := 8
+		per := plans / procs
+		type rres struct {
+			out  []byte
+			code int
+		}
+		rr := make([]rres, procs)
+		var wg2 sync.WaitGroup
+		for i := 0; i < procs; i++ {
+			wg2.Add(1)
+			go func(i int) {
+				defer wg2.Done()
+				c := exec.Command(rbin, "-seed", fmt.Sprint(seed), "-from", fmt.Sprint(i*per), "-to", fmt.Sprint((i+1)*per))
+				c.Env = append(os.Environ(), "GORACE=exitcode=66 halt_on_error=1", "GOMAXPROCS=16")
+				out, err := c.CombinedOutput()
+				rr[i].out = out
+				if err != nil {
+					rr[i].code = 1
+					if ee, ok := err.(*exec.ExitError); ok {
+						rr[i].code = ee.ExitCode()
+					}
+				}
+			}(i)
+		}
+		wg2.Wait()
+		raceInfo["plans_on_real_goroutines"] = per * procs
+		raceInfo["note"] = "happens-before race detector on the same tape-generated operation lists; not a deterministic replay"
+		for i, r := range rr {
+			if r.code == 0 {
+				continue
+			}
+			if r.code != 66 && r.code != 1 {
+				fatal2("race companion failed with exit code %d:\n%s", r.code, tail(r.out, 3000))
+			}
+			clause := "data-race"
+			if r.code == 1 {
+				clause = "oracle-violated-on-real-goroutines"
+			}
+			os.MkdirAll(filepath.Join(verifDir, "replays"), 0o755)
+			replayPath = filepath.Join(verifDir, "replays", fmt.Sprintf("%s-race-%d-%d.json", *prop, seed, i*per))
+			writeJSON(replayPath, map[string]any{
+				"property": *prop, "clause": clause, "seed": seed, "plans": []int{i * per, (i + 1) * per},
+				"replay_cmd": fmt.Sprintf("cd %s && go build -race -o /tmp/racecomp ./cmd/racecomp && GORACE='exitcode=66 halt_on_error=1' /tmp/racecomp -seed %d -from %d -to %d", verifDir, seed, i*per, (i+1)*per),
+				"note":       "not a deterministic replay: the race detector is happens-before based, so the report is stable across schedules although the execution is not",
+				"report":     tail(r.out, 6000),
+			})
+			fmt.Printf("verifsim: race companion: clause %q\n%s\n", clause, tail(r.out, 2500))
+			violations = 1
+			break
+		}
+		if violations == 0 {
+			fmt.Printf("verifsim: race companion: %d operation-list plans on real goroutines under the race detector: no race, no oracle violation\n", per*procs)
+		}
+	}
+
 	for _, f := range known {
 		fmt.Printf("KNOWN-FINDING: property=%s %s (observed in %d runs of this check)\n", *prop, f.What, tot.Known[f.Key])
 	}
@@ -453,6 +523,9 @@ func cmdCheck(args []string) {
 			"known_findings_seen": tot.Known,
 			"overlay":             fmt.Sprintf("%d files rewritten from the working tree (variant %q)", rst.Files, cfg.Variant),
 			"workers":             workers,
+		}
+		if len(raceInfo) > 0 {
+			cov["race_companion"] = raceInfo
 		}
 		if blind := blindSpots(*prop, tot.Reach); len(blind) > 0 {
 			cov["blind_spots_reach_counters_at_zero"] = blind
